@@ -129,6 +129,7 @@ def try_ids(a):
                 for h, hd in zip(s.handlers, d['handlers']):
                     out[h] = (n, hd['cls'])
                     walk_block(h.body, hd['body'])
+                walk_block(s.orelse, d['orelse'])
                 walk_block(s.finalbody, d['final'])
             elif isinstance(s, (ast.If, ast.While, ast.For)):
                 out[s] = n
